@@ -52,7 +52,7 @@ def chunk(cmds_groups, maxlen=3000):
     return shards
 
 
-def sweep_groups(frame_fn, values, opts_list, rng, base_addr=0x400000, per_group=60, setup_fn=None):
+def sweep_groups(frame_fn, values, opts_list, rng, base_addr=0x400000, per_group=60, setup_fn=None, setups=None):
     """For every option set: each value as an *update* of an existing row and as the *first* frame
     of a fresh aircraft.  frame_fn(value, addr, rng) -> hex line.  setup_fn(addr) -> lines that
     create the row first (default: a DF11 with CA 5)."""
@@ -63,7 +63,8 @@ def sweep_groups(frame_fn, values, opts_list, rng, base_addr=0x400000, per_group
             part = vals[i:i + per_group]
             a = base_addr + 1 + (i // per_group) % 1000
             g = [reset(opts)]
-            for l in (setup_fn(a) if setup_fn else [df11(5, a)]):
+            su = setups[(i // per_group) % len(setups)] if setups else setup_fn
+            for l in (su(a) if su else [df11(5, a)]):
                 g.append(run1(l))
             for v in part:
                 g.append(run1(frame_fn(v, a, rng)))
